@@ -21,7 +21,7 @@ func init() {
 	vc.Register(&vc.Check{
 		ID:    "C16",
 		Level: "exploration",
-		Rule: "schedules: all executions within the deviation bound (delay bounding, quick 2, thorough 3; coalescing timers firing early count as deviations) of a producer thread driving 8-9 member transitions of two members through the real handlers of a real Serf node while the real pipeline goroutines (snapshot tee and stream, internal-query filter, member coalescer, user coalescer) run, for the four configurations {snapshot on/off} x {coalescing on/off} and three transition scripts (flapping, graceful leave and rejoin, prune of a failed member); the application's channel is read at the end; non-trivial = at least one non-default choice",
+		Rule: "schedules: all executions within the deviation bound (delay bounding, quick 2, thorough 3; coalescing timers firing early count as deviations) of a producer thread driving 8-9 member transitions of two members through the real handlers of a real Serf node while the real pipeline goroutines (snapshot tee and stream, internal-query filter, member coalescer, user coalescer) run, for the four configurations {snapshot on/off} x {coalescing on/off} and three transition scripts (flapping, graceful leave and rejoin, prune of a failed member); the application's channel is read at the end; non-trivial = at least one non-default choice; slow-application/member-events: the application does not read its (capacity 1) channel while two members change state, then reads everything (bound quick 1, thorough per tier)",
 		Assumptions: []string{
 			"memberlist's node notifications are serial (one producer thread), as under memberlist's node lock; gossip messages arrive on another thread (two-producers scenarios)",
 			"the reference per-member sequence is the sequence of status changes the producer caused (one event kind per transition)",
@@ -60,6 +60,7 @@ func c16run(ctx *vc.Ctx) {
 	}
 	c16backpressure(ctx, bound)
 	c16twoProducers(ctx, bound)
+	c16slowApplication(ctx, bound-1)
 	fb := 0
 	if ctx.Thorough() {
 		fb = 1
@@ -376,5 +377,111 @@ func c16twoProducers(ctx *vc.Ctx, bound int) {
 			return g + "|" + status, "", ""
 		}
 		ctx.Explore(vc.ExploreOpts{Name: "two-producers/" + p.name, Bound: bound, MaxSteps: 100000}, body, check)
+	}
+}
+
+// c16slowApplication: the coalescing stage alone (real coalesceLoop, member coalescer, coalesce
+// period 3 s, quiescent period 1 s) feeding an application that stops reading for a while. A
+// pass-through user event then blocks the stage in its send while further member events queue up
+// behind it and the coalescing timers expire; when the application resumes, the stage finds
+// expired timers AND queued events at once, and which it serves first is explored. The stage
+// blocks rather than drops, so the last event the application receives for the member must be its
+// latest one, and the events must come in an order in which the status can have changed.
+func c16slowApplication(ctx *vc.Ctx, bound int) { c16slowApp(ctx, bound, false) }
+
+// c16slowApp: user=false: member events through the member coalescer (pass-through: user events);
+// user=true: coalescable user events "deploy" with Lamport times 1, 2, 3 through the user coalescer
+// (pass-through: member events); the application must end up with the highest one.
+func c16slowApp(ctx *vc.Ctx, bound int, user bool) {
+	type win struct{ from, to time.Duration }
+	for _, w := range []win{{3550 * time.Millisecond, 7 * time.Second}, {3550 * time.Millisecond, 6500 * time.Millisecond}, {3550 * time.Millisecond, 4800 * time.Millisecond}, {50 * time.Millisecond, 3200 * time.Millisecond}} {
+		w := w
+		var got []string
+		body := func() {
+			vsched.Branching(false)
+			got = nil
+			vsched.SetHorizon(int64(30 * time.Second))
+			out := make(chan serf.Event, 1) // one slot: the stage's second send blocks until the application reads
+			shut := make(chan struct{})
+			co := serf.VNewMemberCoalescer()
+			if user {
+				co = serf.VNewUserCoalescer()
+			}
+			in := serf.VCoalescedEventCh(out, shut, 3*time.Second, time.Second, co)
+			vsched.Quiesce()
+			n := 0
+			member := func(t serf.EventType) serf.Event {
+				if user {
+					n++
+					return serf.UserEvent{Name: "deploy", LTime: serf.LamportTime(n), Coalesce: true}
+				}
+				return serf.MemberEvent{Type: t, Members: []serf.Member{{Name: "b"}}}
+			}
+			pass := func(i int) serf.Event {
+				if user {
+					return serf.MemberEvent{Type: serf.EventMemberUpdate, Members: []serf.Member{{Name: fmt.Sprintf("p%d", i)}}}
+				}
+				return serf.UserEvent{Name: fmt.Sprintf("pass-through-%d", i), LTime: serf.LamportTime(i)}
+			}
+			vsched.Branching(true)
+			p := vsched.Spawn("producer", func() {
+				in <- member(serf.EventMemberJoin) // t=0; flushed at 1 s
+				vsched.Sleep(int64(3500*time.Millisecond), "producer")
+				in <- member(serf.EventMemberFailed) // t=3.5 s: a quantum starts, it ends at 6.5 s
+				vsched.Sleep(int64(100*time.Millisecond), "producer")
+				in <- pass(1) // not coalesced: sent on at once, fills the slot
+				in <- pass(2) // the stage blocks in this send
+				vsched.Sleep(int64(400*time.Millisecond), "producer")
+				in <- member(serf.EventMemberJoin) // t=4 s: the member is alive again
+			})
+			a := vsched.Spawn("application", func() {
+				for vsched.Elapsed() < int64(14*time.Second) {
+					now := time.Duration(vsched.Elapsed())
+					if now < w.from || now >= w.to {
+						for more := true; more; {
+							select {
+							case e := <-out:
+								if me, ok := e.(serf.MemberEvent); ok && !user {
+									got = append(got, me.Type.String())
+								}
+								if ue, ok := e.(serf.UserEvent); ok && user {
+									got = append(got, fmt.Sprint(ue.LTime))
+								}
+							default:
+								more = false
+							}
+						}
+					}
+					vsched.Sleep(int64(250*time.Millisecond), "application-poll")
+				}
+			})
+			p.Join()
+			a.Join()
+			vsched.Branching(false)
+			close(shut)
+			vsched.Quiesce()
+		}
+		check := func(x *vsched.Exec) (string, string, string) {
+			if len(x.Panics) > 0 {
+				return "panic", "slow-application: panic " + x.Panics[0].Frame, x.Panics[0].Value + "\n" + x.Panics[0].Stack
+			}
+			if !x.RootDone {
+				return "stuck", "slow-application: deadlock", fmt.Sprintf("blocked %+v", x.Blocked)
+			}
+			g := strings.Join(got, ",")
+			ok := g == "member-join,member-failed,member-join" || g == "member-join" // failed+join inside one quantum coalesce to join, which repeats the last reported kind
+			if user {
+				ok = g == "1,3" || g == "1,2,3"
+			}
+			if !ok {
+				return "order:" + g, "slow-application: the application's last event for the member is not its latest", fmt.Sprintf("application not reading during [%v,%v): b joined (0 s), failed (3.5 s), joined again (4 s); the application received %v", w.from, w.to, got)
+			}
+			return g, "", ""
+		}
+		kind := "member-events"
+		if user {
+			kind = "user-events"
+		}
+		ctx.Explore(vc.ExploreOpts{Name: fmt.Sprintf("slow-application/%s/not-reading-%v-%v", kind, w.from, w.to), Bound: bound, MaxSteps: 100000}, body, check)
 	}
 }
